@@ -409,11 +409,13 @@ class AsynchronousDeferredRunTest(_DeferredRunTest):
                 # of reasons, but most likely someone hit Ctrl-C during the
                 # test.
                 self._got_user_exception(sys.exc_info())
+                self._cut_short_by = self._exceptions[-1]
                 self.result.stop()
                 return False
             except TimeoutError:
                 # The function took too long to run.
                 self._log_user_exception(TimeoutError(self.case, self._timeout))
+                self._cut_short_by = self._exceptions[-1]
                 return False
 
         return trap_unhandled_errors(run)
@@ -434,6 +436,7 @@ class AsynchronousDeferredRunTest(_DeferredRunTest):
         # to do. Find a better way of communicating between runtest and test
         # case.
         self.case.reactor = self._reactor
+        self._cut_short_by = None
         spinner = self._make_spinner()
 
         # We can't just install these as fixtures on self.case, because we
@@ -464,6 +467,16 @@ class AsynchronousDeferredRunTest(_DeferredRunTest):
         if junk:
             successful = False
             self._log_user_exception(UncleanReactorError(junk))
+
+        cut_short_by = self._cut_short_by
+        if cut_short_by is not None:
+            # A timeout or an interrupt is an error, whatever the accounting
+            # above found afterwards (a failed assertion that was logged or
+            # left in a Deferred would otherwise make it a failure): it is
+            # the last thing we report, so that it decides the outcome.
+            self._exceptions[:] = [
+                e for e in self._exceptions if e is not cut_short_by
+            ] + [cut_short_by]
 
         if successful:
             self.result.addSuccess(self.case, details=self.case.getDetails())
